@@ -17,6 +17,7 @@ extern VwOutcome vw_script[VW_MAX_SCRIPT];
 extern int       vw_script_len, vw_script_pos;
 extern int       vw_src_fd, vw_dst_fd;
 extern long      vw_b1, vw_b2;
+extern int       vw_ino_collide; // the second descriptor fstat'd reports the first one's st_ino on another st_dev
 extern char      vw_log[VW_LOG_SIZE];
 extern size_t    vw_log_len;
 extern int       vw_first_cfr_errno;
